@@ -461,6 +461,9 @@ func (s *sys) waitProcessor() (blocked bool, err error) {
 			return false, nil
 		case <-time.After(2 * time.Millisecond):
 		}
+		if len(s.wc.procCh) > 0 {
+			continue // re-armed meanwhile: never judge its state then
+		}
 		// parked on its timer the processor is in "chan receive"; the original hand-off
 		// (select with default) never parks. Parked in a send (or in a select containing
 		// one) it waits for a receiver while holding the queue mutex.
